@@ -225,11 +225,7 @@ def run(ctx):
     chk.discharge()
     ids.const_values = val
     ids.settle()
-    for o in chk.failed():
-        if not o.handled and o.group in ('case-structure', 'no-panic'):
-            o.handled = True
-            ctx.violation('tower:' + o.name, 'obligation %s fails (model %s)' % (o.name, str(o.model)[:300]),
-                          {'operation': o.name, 'model': o.model})
+    C.settle_structural(ctx, ('case-structure', 'no-panic'), 'tower')
     for g in chk.grounds:
         if not g[1]:
             chk.ground_handled = getattr(chk, 'ground_handled', {})
